@@ -160,15 +160,28 @@ def Ctr.add (a b : Ctr) : Ctr :=
    a.retries + b.retries, a.batchesSent + b.batchesSent, a.msgsSent + b.msgsSent,
    a.decodeErr + b.decodeErr⟩
 
+/-- Path of the request URL `url.JoinPath(apiHost, "/1/batch", url.PathEscape(dataset))`, as segments
+below the host, given the escaped dataset (always a single segment: `PathEscape` escapes `/`).
+`JoinPath` cleans the joined path: an empty or `.` segment disappears, a `..` segment removes
+`batch`. -/
+def requestPath (escapedDataset : String) : List String :=
+  if escapedDataset = ".." then ["1"]
+  else if escapedDataset = "." ∨ escapedDataset = "" then ["1", "batch"]
+  else ["1", "batch", escapedDataset]
+
+/-- the batch endpoint of a dataset -/
+def ownPath (escapedDataset : String) : List String := ["1", "batch", escapedDataset]
+
 /-- one HTTP request made by `sendBatch` -/
 structure Attempt where
   dest : Dest
+  path : List String   -- the request path (`requestPath` of the escaped dataset)
   events : List Ev
   bodyLen : Nat
   time : Nat      -- clock when the batch was dispatched
   chunk : Nat     -- index of the sub-batch within its whole batch
   sidx : Nat      -- which element of the operation's server script answered it
-  deriving Repr
+  deriving Repr, DecidableEq
 
 structure Acc where
   ctr : Ctr := {}
@@ -235,11 +248,15 @@ structure Cfg where
   maxBatch : Nat            -- MaxBatchSize (events)
   bt : Nat                  -- BatchTimeout (ns)
   badUrl : Dest → Bool      -- `buildRequestURL` returns an error for this destination
+  esc : String → String := id   -- `url.PathEscape`
 
 /-- every skipped event went through handleEventError: one error, one Down -/
 def countDropped (n : Nat) (acc : Acc) : Acc :=
   let c := acc.ctr
   { acc with ctr := { c with rerr := c.rerr + n, downs := c.downs + n } }
+
+def mkAttempt (cfg : Cfg) (now i : Nat) (ch : Chunk) (p : Nat) : Attempt :=
+  ⟨ch.dest, requestPath (cfg.esc ch.dest.dataset), ch.sub, bodyLen ch, now, i, p⟩
 
 /-- the body of one iteration of the outer loop after the packing -/
 def sendChunk (cfg : Cfg) (script : List Srv) (now : Nat) (i : Nat) (ch : Chunk) (acc : Acc) : Acc :=
@@ -248,8 +265,7 @@ def sendChunk (cfg : Cfg) (script : List Srv) (now : Nat) (i : Nat) (ch : Chunk)
   else if cfg.badUrl ch.dest then                              -- "failed to create request URL"
     { acc with ctr := batchFailure ch.sub.length acc.ctr }
   else
-    let r := tryLoop script now (fun p => ⟨ch.dest, ch.sub, bodyLen ch, now, i, p⟩) ch.sub.length
-      maxTries 0 .none acc
+    let r := tryLoop script now (mkAttempt cfg now i ch) ch.sub.length maxTries 0 .none acc
     let a := r.2
     { a with ctr := finish r.1 ch.sub a.ctr }
 
